@@ -57,6 +57,11 @@ def str_corpus(tier, seed, gens, profiles=("dbg", "rel")):
     return jobs
 
 def plan_for(pid, tier, seed):
+    if pid == "C05":
+        from . import borrow
+        return dict(level="model_checking", mc=[], traces=[], special=[borrow.run_c05],
+                    assumptions=["rustc's verdict (the executor for compile-time properties)",
+                                 "Borrow.tla's statement language: the family of programs of <= 3 statements over <= 2 tokens of every kind"])
     if pid == "C14":
         return dict(level="model_checking", mc=[], traces=str_corpus(tier, seed, ["sops", "decoders", "srandom"]), special=[],
                     assumptions=["TLC and the Json/IOUtils community modules",
